@@ -1,7 +1,8 @@
 """C09 (depth limit, symbolic links): Verus on the decisions of walk.rs that do not depend on the file system walk
 itself: the depth guard of visit_dir, the nesting level handed to roots and to the entries of a directory, and the
 whole body of visit_link (when a link is reported as a file, when it is followed)."""
-from vf.verus_run import Source, Piece, UnitBuild
+import re
+from vf.verus_run import Source, Piece, UnitBuild, LostAnchor
 
 NAME = "walk_decisions"
 
@@ -74,6 +75,10 @@ def build():
     def depth_guard():
         fn = src.fn_in(impl, "fn visit_dir<'s, 'w, F>(")
         st = src.top_stmt(fn, "self.depth")
+        # the slice is accepted only if it IS an early-return guard (`if COND { return; }`): a statement that merely
+        # mentions `self.depth` (e.g. `let too_deep = ..;` feeding a merged guard) is a different code shape -> undecided
+        if not re.match(r"^\s*if\b[^{]*\{\s*return;\s*\}\s*$", st.text, re.S):
+            raise LostAnchor("the top-level statement of visit_dir that reads self.depth is not a guard `if .. { return; }`")
         ub.spec('''
     // ---- the depth guard of visit_dir (`level`: 0 for an input path, +1 per directory below it). Documented (config.rs,
     // README): --depth 0 does not descend into directories at all, --depth 1 reads the directories given as input paths but
